@@ -71,8 +71,9 @@ Lemma offer_refused_iff_l c s p sz s' z :
   ((z = c_full \/ z = c_toolarge \/ z = c_blocked) <-> size s + sz > cap c) /\
   ((z = c_enq \/ z = c_await) <-> size s + sz <= cap c) /\
   (z = c_full -> blocking c = false) /\
-  (z = c_blocked -> blocking c = true /\ (kind c = Mem -> sz <= cap c)) /\
-  (z = c_toolarge -> kind c = Mem /\ sz > cap c) /\
+  (z = c_blocked -> blocking c = true /\ sz <= cap c) /\
+  (z = c_toolarge -> sz > cap c /\ (kind c = Mem \/ blocking c = true)) /\
+  (sz > cap c -> kind c = Mem \/ blocking c = true -> z = c_toolarge) /\
   (z = c_await <-> (size s + sz <= cap c /\ wfr_eff c = true)) /\
   ((z = c_enq \/ z = c_await) ->
      acc s' = acc s ++ [p] /\ items s' = items s ++ [(p, sz)] /\ size s' = size s + sz) /\
@@ -81,6 +82,7 @@ Proof.
   intros H0 Hm H. revert H0 Hm. revert H.
   step_cases; unfold c_full, c_toolarge, c_blocked, c_enq, c_await, c_zero, c_invalid in *; intros H0 Hm; try (specialize (Hm eq_refl));
     repeat split; intros; ss; try reflexivity; try lia; try discriminate; try tauto.
+  all: try (destruct H1; discriminate); try (match goal with H : _ \/ _ |- _ => destruct H; discriminate end).
 Qed.
 
 Lemma offer_degenerate_l c s p sz s' z :
